@@ -132,4 +132,22 @@ def run(ctx):
         "Compile (wire id assignment, BFS order, GMW level sort) is validated by evaluation only, not modelled",
         "the theorems are about the gate list in emission order under sequential evaluation",
     ]
-    return ctx.finish("see DESIGN.md C07")
+    ctx.assumptions += [
+        "signed builders: the specification reads each operand as two's complement at ITS OWN width; the signed "
+        "division/modulo specification is the one fixed by testsuite/lang/divi.mpcl, modi.mpcl (quotient truncates toward "
+        "zero, remainder |a| mod |b|)",
+        "Karatsuba limits below 3 are excluded (the Go recursion does not terminate; the compiler uses limits >= 8)",
+    ]
+    return ctx.finish(
+        "Theorems (Props/C07.lean, all operand/result widths, all values, both prologue variants): ripple adder exact; "
+        "ripple subtractor exact for |z| <= max+1 (negation witness above); unsigned comparators; signed comparators "
+        "(exact for equal widths, zero-extension semantics otherwise, negation witness); Eq/Neq; MUX; bitwise "
+        "AND/OR/XOR/Clear; logical AND/OR; bit tests; Hamming (Yao, width >= 2); array multiplier: negation witness "
+        "for |z| > 2max and kernel-checked enumeration at widths <= 2; bridge lemma to the C01 plain evaluator. "
+        "Tie T4: for every modelled builder (adders, subtractors incl. Kogge-Stone, array/Karatsuba/Wallace "
+        "multipliers, comparators, MUX, index, bitwise, Hamming) the Lean generator reproduces the real cc.Gates "
+        "gate for gate (canonical first-occurrence numbering) on all width triples listed under coverage; T3: sample "
+        "evaluations and the Lean Circuit.compute on Go-compiled circuits (dividers: evaluator only). Oracle: real "
+        "builder -> Compile -> bit-sliced evaluation vs math/big, exhaustive at small widths, sampled to 130 bits, "
+        "cross-checked with Circuit.Compute and with the raw cc.Gates order. Known findings are matched on "
+        "(algorithm, width relation, failure class) so other failures of the same builder are still reported.")
